@@ -39,6 +39,9 @@ TNext ==
        \/ e.a = "timer" /\ ResetTimeoutEnabled(g) /\ e.t = g.rt + ResetTimeout /\ Apply(e, GStepTimeout(g))
        \/ e.a = "timer" /\ ~(ResetTimeoutEnabled(g) /\ e.t = g.rt + ResetTimeout)
              /\ TimerEnabled(g.h) /\ InWindow(e.t - tw) /\ Apply(e, GStepTick(g))
+       \* a timer of the loop fired and nothing observable happened while no timeout of the model is due: stuttering
+       \/ e.a = "timer" /\ e.out = <<>> /\ ~(ResetTimeoutEnabled(g) /\ e.t >= g.rt + ResetTimeout)
+                         /\ (~TimerEnabled(g.h) \/ e.t - tw < TMax) /\ UNCHANGED <<g, tw>>
        \/ e.a = "submit" /\ Apply(e, GStepSubmit(g, e.id, e.pl))
        \/ e.a = "end" /\ e.pending = <<>> /\ g.rw = "none" /\ g.h.cur.id = 0 /\ UNCHANGED <<g, tw>>
   /\ l' = l + 1 /\ UNCHANGED tid
